@@ -646,6 +646,110 @@ Proof.
 Qed.
 
 (* ------------------------------------------------------------------------------------------- *)
+(* the scanner-defined classes D, B, P are inside the simple syntactic ones *)
+
+Lemma has_pair_cons p x r :
+  has_pair p (x :: r) = (match r with y :: _ => p x y | [] => false end) || has_pair p r.
+Proof. destruct r; reflexivity. Qed.
+Lemma has_pair_tail p x r : has_pair p r = true -> has_pair p (x :: r) = true.
+Proof. intros H. rewrite has_pair_cons, H. apply orb_true_r. Qed.
+
+Lemma lossD_contains a : forall s st, rescan_from s st a = RLossD ->
+  match s with
+  | RK _ => True
+  | RP => starts_with c_lbrace a = true \/ has_pair pair_D a = true
+  | _ => has_pair pair_D a = true
+  end.
+Proof.
+  induction a as [|c a IH]; intros s st H.
+  - destruct s as [| | |[|]]; cbn in H; try discriminate; exact I.
+  - destruct s as [| | |b]; cbn [rescan_from] in H.
+    + destruct (c =? c_bs) eqn:Ebs.
+      * apply has_pair_tail. exact (IH RF st H).
+      * destruct ((c =? c_dollar) || (c =? c_pct)) eqn:Epre.
+        -- destruct (IH RP _ H) as [Hs|Hp]; [|now apply has_pair_tail].
+           rewrite has_pair_cons. destruct a as [|y a]; [discriminate|]. cbn [starts_with] in Hs.
+           unfold pair_D. now rewrite Epre, Hs.
+        -- apply has_pair_tail. exact (IH RN st H).
+    + destruct ((c =? c_dollar) || (c =? c_pct)); [discriminate|].
+      apply has_pair_tail. exact (IH RN st H).
+    + destruct (c =? c_lbrace) eqn:Elb.
+      * left. exact Elb.
+      * right. apply has_pair_tail. exact (IH RN st H).
+    + exact I.
+Qed.
+
+Lemma lossB_contains a : forall s st, rescan_from s st a = RLossB ->
+  match s with
+  | RF => (match a with y :: _ => (y =? c_dollar) || (y =? c_pct) | [] => false end) = true \/ has_pair pair_B a = true
+  | _ => has_pair pair_B a = true
+  end.
+Proof.
+  induction a as [|c a IH]; intros s st H.
+  - destruct s as [| | |[|]]; cbn in H; discriminate.
+  - destruct s as [| | |b]; cbn [rescan_from] in H.
+    + destruct (c =? c_bs) eqn:Ebs.
+      * destruct (IH RF st H) as [Hs|Hp]; [|now apply has_pair_tail].
+        rewrite has_pair_cons. destruct a as [|y a]; [discriminate|].
+        unfold pair_B. now rewrite Ebs, Hs.
+      * destruct ((c =? c_dollar) || (c =? c_pct)).
+        -- apply has_pair_tail. exact (IH RP _ H).
+        -- apply has_pair_tail. exact (IH RN st H).
+    + destruct ((c =? c_dollar) || (c =? c_pct)) eqn:Epre.
+      * left. reflexivity.
+      * right. apply has_pair_tail. exact (IH RN st H).
+    + destruct (c =? c_lbrace).
+      * apply has_pair_tail. exact (IH (RK false) st H).
+      * apply has_pair_tail. exact (IH RN st H).
+    + destruct (c =? c_rbrace); [discriminate|].
+      destruct (should_break_key c).
+      * apply has_pair_tail. exact (IH RN st H).
+      * apply has_pair_tail. exact (IH (RK true) st H).
+Qed.
+
+Lemma spread_contains a : forall s st, rescan_from s st a = RClean false ->
+  st = false \/ has_chr c_pct a = true.
+Proof.
+  induction a as [|c a IH]; intros s st H.
+  - destruct s as [| | |[|]]; cbn in H; try discriminate; inversion H; auto.
+  - assert (T : forall s' st', rescan_from s' st' a = RClean false -> st' = st -> st = false \/ has_chr c_pct (c :: a) = true).
+    { intros s' st' H' ->. destruct (IH s' st H') as [|Hp]; [auto|]. right. rewrite has_chr_cons, Hp. apply orb_true_r. }
+    destruct s as [| | |b]; cbn [rescan_from] in H.
+    + destruct (c =? c_bs); [now apply (T RF st)|].
+      destruct ((c =? c_dollar) || (c =? c_pct)) eqn:Epre; [|now apply (T RN st)].
+      destruct (IH RP _ H) as [Hd|Hp].
+      * right. rewrite Hd in Epre. cbn in Epre. rewrite has_chr_cons, N.eqb_sym, Epre. reflexivity.
+      * right. rewrite has_chr_cons, Hp. apply orb_true_r.
+    + destruct ((c =? c_dollar) || (c =? c_pct)); [discriminate|]. now apply (T RN st).
+    + destruct (c =? c_lbrace); [now apply (T (RK false) st) | now apply (T RN st)].
+    + destruct (c =? c_rbrace); [discriminate|].
+      destruct (should_break_key c); [now apply (T RN st) | now apply (T (RK true) st)].
+Qed.
+
+Theorem safe_simple_safe a : safe_simple a = true -> safe a = true.
+Proof.
+  unfold safe_simple, safe. intros H. repeat (apply andb_prop in H; destruct H as [H ?]).
+  repeat match goal with X : negb _ = true |- _ => apply negb_true_iff in X end.
+  repeat match goal with X : _ = false |- _ => rewrite X end. cbn [negb andb].
+  unfold cls_D, cls_B, cls_P, rescan.
+  destruct (rescan_from RN true a) as [single| |] eqn:R.
+  - destruct single; [reflexivity|]. cbn [negb andb].
+    destruct (spread_contains a RN true R) as [|Hp]; [discriminate|].
+    match goal with X : has_chr c_pct a && has_chr c_sp a = false |- _ => rewrite Hp in X; cbn [andb] in X; rewrite X end.
+    reflexivity.
+  - pose proof (lossB_contains a RN true R) as Hb. cbn in Hb. congruence.
+  - pose proof (lossD_contains a RN true R) as Hd. cbn in Hd. congruence.
+Qed.
+
+Theorem roundtrip_simple : forall cmd args e,
+  is_cmd cmd = true -> forallb safe_simple args = true -> head_ok args = true -> last_ok args = true ->
+  eval_call e (cmd :: args) = Call None None cmd args.
+Proof.
+  intros cmd args e Hc Hs. apply roundtrip; [assumption|].
+  apply forallb_forall. intros a Ha. rewrite forallb_forall in Hs. apply safe_simple_safe. now apply Hs.
+Qed.
+
+(* ------------------------------------------------------------------------------------------- *)
 (* the unsafe classes are real: one witness each (the command word is "c") *)
 
 Definition w_cmd : str := [99].
